@@ -109,6 +109,9 @@ def gen(rng, tier):
         if limit < (1 << 26):
             kind = "alloc-limit"
         out.append(("pb %d %s" % (limit, ";".join(ops)), {"kind": kind}))
+    # two threads printing into their own buffers at the same time: sprintbuf keeps no shared state
+    for nthr in ([20000, 100000] if tier == "quick" else [20000, 100000, 400000, 400000]):
+        out.append(("pb %d A6162;T%d;A63" % (1 << 26, nthr), {"kind": "threads"}))
     return out
 
 
@@ -116,6 +119,9 @@ def parse_obs(o):
     steps = []
     for s in o.split(" | "):
         t = s.split(" ")
+        if len(t) == 2 and t[0] == "threads":
+            steps.append(dict(threads=int(t[1])))
+            continue
         if len(t) != 6:
             steps.append(None)
         else:
@@ -166,6 +172,12 @@ def oracle(line, meta, impl):
         return ("malformed", "unexpected driver output: " + impl[:100])
     s = b""
     for op, st in zip(ops, steps):
+        if op[0] == "T":
+            if st.get("threads") != 0:
+                return ("threads", "two threads printing into their own buffers disturbed each other: %s of their texts came out wrong" % st.get("threads"))
+            continue
+        if "threads" in st:
+            return ("malformed", "unexpected driver output: " + impl[:100])
         want, req = spec_step(s, op)
         if want is HUGE and req <= INT_MAX:
             # would need > 128 MiB: the generator only issues these above INT_MAX - 8, where
